@@ -14,6 +14,7 @@ macro_rules! props {
 props! {
     "C01" => c01,
     "C02" => c02,
+    "C04" => c04,
     "C05" => c05,
     "C06" => c06,
     "C07" => c07,
